@@ -1314,7 +1314,7 @@ func (h *hist) opRead(hn *hint, positional bool) {
 			want = wantErr(eBADF).because("write-only")
 			scen += ":write-only"
 		case off < 0:
-			want = wantErr(eINVAL).because("negative-offset")
+			want = wantErr(eINVAL, eIO).because("negative-offset") // wazero's own WASI tests pin EIO here; the experimental/sys docs say EINVAL: both accepted
 			scen += ":negative-offset"
 		default:
 			want = wantOK()
@@ -1416,7 +1416,7 @@ func (h *hist) opWrite(hn *hint, positional bool) {
 			want = wantFail().because("several-errors")
 			scen += ":negative-offset:and-more"
 		case positional && off < 0:
-			want = wantErr(eINVAL).because("negative-offset")
+			want = wantErr(eINVAL, eIO).because("negative-offset") // wazero's own WASI tests pin EIO here; the experimental/sys docs say EINVAL: both accepted
 			scen += ":negative-offset"
 		case positional && o.append:
 			// POSIX: the offset is honoured; Linux: data is appended; Go refuses
